@@ -239,7 +239,7 @@ Section Blocks.
     intros [o' [[Hc Hch]|Hin]|p q ep Np Nq Hrec El De Sp Hpr Sq Elq].
     - destruct Hc as [o2 Hqo Hn|p Hn|p Hn Hr|p q ep Np Nq El De Ed|p q ep Np Nq Hrec El De Sp Hpr Sq Elq
                       |p q ep Np Nq Hrec Hfix El De Sp Hpr Sq Elq|p q ep v Np Nq Hrec El De Sp Hpr Sq Hqr Elq Dv
-                      |p q ep Np Nq El De Hpr Hqr Hupr Hpl]; cbn [op_np novictim].
+                      |p q ep Np Nq El De Hpr Hqr Hupr Hpl|p q ep v Np Nq Hrec Hfix El De Sp Hpr Sq Hqr Elq Dv]; cbn [op_np novictim].
       + split; [exact Hn|]. destruct o2; try exact I. destruct Hqo.
       + now split.
       + now split.
@@ -249,6 +249,7 @@ Section Blocks.
       + exfalso. destruct Hch as (_ & _ & Hn); [unfold fisdir; now rewrite El | congruence].
       + exfalso. destruct Hch as (Sp & Hrec & _); [unfold fisdir; now rewrite El|].
         destruct Hpl as [Hf|[Hs _]]; [congruence | contradiction].
+      + exfalso. destruct Hch as [Sp' _]; [unfold fisdir; now rewrite El | contradiction].
     - destruct o' as [p|p|p|p|p|p|p q]; try contradiction.
       destruct Hin as (ep & Np & Nq & Hrec & Hfix & El & De & Sp & Hpr & Sq & Elq). cbn [op_np novictim].
       split; [now split|]. now rewrite (fisdir_none _ _ Elq), andb_false_r.
